@@ -39,6 +39,10 @@ var programs = []prog{
 	{name: "main-waits-looping-goroutine", body: "c := make(chan int)\ngo func() {\n for {\n }\n c <- 1\n}()\n<-c"},
 	{name: "go-select-blocked", body: "c := make(chan int)\nd := make(chan int)\ngo func() {\n select {\n case <-c:\n case d <- 1:\n }\n}()\nfor {\n}"},
 	{name: "native-callback-loop", body: "host.Call(func() {\n for {\n }\n})"},
+	{name: "native-poll-callback-recv", body: "ch := make(chan bool)\nhost.Poll(func() bool {\n return <-ch\n})"},
+	{name: "native-poll-callback-select", body: "in := make(chan bool)\nout := make(chan int)\nhost.Poll(func() bool {\n select {\n case ok := <-in:\n  return ok\n case out <- 1:\n  return true\n }\n})"},
+	{name: "native-poll-callback-loop", body: "host.Poll(func() bool {\n for {\n }\n return true\n})"},
+	{name: "native-poll-in-goroutine", body: "done := make(chan bool)\nch := make(chan int)\ngo func() {\n host.Poll(func() bool {\n  ch <- 1\n  return true\n })\n done <- true\n}()\nhost.Poll(func() bool {\n return <-done\n})"},
 	{name: "buffered-producer-consumer", body: "c := make(chan int, 2)\ngo func() {\n for i := 0; ; i++ {\n  c <- i\n }\n}()\nfor {\n <-c\n}"},
 	// terminating programs
 	{name: "t-print", body: "println(1)", terminating: true},
@@ -60,6 +64,11 @@ func source(p prog) string {
 
 var hostPkg = native.Packages{"host": native.Package{Name: "host", Declarations: native.Declarations{
 	"Call": func(f func()) { f() },
+	// Poll calls ready until it reports success (a native helper that keeps calling back).
+	"Poll": func(ready func() bool) {
+		for !ready() {
+		}
+	},
 }}}
 
 type state struct {
@@ -82,7 +91,13 @@ func scenario(p prog, horizon, bound int) *sched.Scenario {
 		Bound:      bound,
 		MaxPoints:  horizon + 400,
 		DoneOracle: true,
-		Visible:    func(ev *scriggo.VerifEvent) bool { return true },
+		CapKey: func(x *sched.Exec) string {
+			if x.Cancelled {
+				return "not-stopped-after-cancel|still-running-at-the-horizon"
+			}
+			return ""
+		},
+		Visible: func(ev *scriggo.VerifEvent) bool { return true },
 		Prepare: func() {
 			once.Do(func() {
 				sp, buildErr = scriggo.Build(scriggo.Files{"main.go": []byte(src)}, &scriggo.BuildOptions{AllowGoStmt: true, Packages: hostPkg})
@@ -219,7 +234,7 @@ func TestVerif(t *testing.T) {
 	sched.RunCheck(t, &sched.CheckSpec{
 		ID:    "C11",
 		Level: "model_checking",
-		Rule:  "for each of 17 non-terminating/blocking programs and 7 terminating ones, run on the real VM under the controlled scheduler with EVERY instruction a scheduling point: the cancel event is fired at every global step k = 0..horizon and once everything is blocked; the context watcher goroutine (the step between ctx.Done firing and the done flag being stored) is delayed by every j <= deviation_bound further steps; goroutine interleavings and ready-vs-done choices of channel operations are enumerated within the same deviation bound. Oracles: Run returns exactly context.Canceled (or the program's own outcome if it finished first), every thread stops (no deadlock, no leaked goroutine in the bubble), and no thread starts an instruction after being resumed with the done flag visible",
+		Rule:  "for each of 21 non-terminating/blocking programs (loops, recursion, blocked channel operations and selects, goroutines, native callbacks, native helpers that poll a callback) and 7 terminating ones, run on the real VM under the controlled scheduler with EVERY instruction a scheduling point: the cancel event is fired at every global step k = 0..horizon and once everything is blocked; the context watcher goroutine (the step between ctx.Done firing and the done flag being stored) is delayed by every j <= deviation_bound further steps; goroutine interleavings and ready-vs-done choices of channel operations are enumerated within the same deviation bound. Oracles: Run returns exactly context.Canceled (or the program's own outcome if it finished first), every thread stops (no deadlock, no leaked goroutine in the bubble), and no thread starts an instruction after being resumed with the done flag visible",
 		Assumptions: []string{
 			"'bounded delay' is measured in VM instructions under the controlled scheduler, never in wall-clock time",
 			"native host functions that block outside the VM are not modelled (the only native used is a callback trampoline)",
